@@ -16,7 +16,7 @@ RULE = ("seeded consistently typed feature-structure pairs (depth <=2, atomic / 
         "(descriptor digest, production-set order signature)")
 ASSUMPTIONS = ["feature structures are consistently typed (a feature is atomic everywhere or complex everywhere)",
                "bounded comparison: words of length <= 4", "FCFG.contains runs under a line-event budget; exhausting it is inconclusive"]
-ATOMIC = {"N": ["sg", "pl"], "P": ["1", "3"]}
+ATOMIC = {"N": ["sg", "pl"], "P": ["1", "3"], "M": ["sg", "pl"]}   # N and M share a domain: one variable may link them
 BUDGET = 4000000
 
 
@@ -99,7 +99,7 @@ def rand_feats(rng, vars_pool, feats, asub=()):
         elif k < 0.65:
             d[f] = rng.pick(ATOMIC[f])
         else:
-            d[f] = ["var", rng.pick(vars_pool) + f]
+            d[f] = ["var", rng.pick(vars_pool) + ("N" if f == "M" else f)]
     return d
 
 
@@ -109,7 +109,7 @@ def gen_fcfg(rng):
     if nv >= 2 and rng.chance(0.12):
         vs = vs[:-1] + ["Gamma"]      # spelled like the Earley parser's own dummy start variable
     ts = TERMS[:rng.randint(1, 2)]
-    feats = rng.pick([[], ["N"], ["N"], ["N", "P"], ["A"], ["A", "N"], ["A"]])
+    feats = rng.pick([[], ["N"], ["N"], ["N", "P"], ["A"], ["A", "N"], ["A"], ["N", "M"], ["N", "M"]])
     asub = rng.pick([["N"], ["N", "P"]]) if "A" in feats else []
     prods = []
     for _ in range(rng.randint(1, 6)):
@@ -135,7 +135,36 @@ def gen_fcfg(rng):
                 {"head": "S", "hf": {}, "body": ["A", "B"], "bf": [{f: ["var", "x" + f]}, {f: ["var", "x" + f]}]}]
         rng.shuffle(base)
         prods = base + [p for p in prods if p["head"] in vs and all(b in vs + ts for b in p["body"])][:2]
-    if rng.chance(0.5):
+    if feats == ["N", "M"] and rng.chance(0.3):
+        # the same constituent once with two features linked by one variable and once with them free: two chart states
+        # for one production skeleton and span that differ only in re-entrancy
+        vs = ["S", "A", "B"]
+        t, u = ts[0], ts[-1]
+        v1, v2 = (rng.sample(ATOMIC["N"], 2) if rng.chance(0.7) else [rng.pick(ATOMIC["N"])] * 2)
+        free = rng.pick([{"N": ["var", "xN"], "M": ["var", "yN"]}, {}, {"N": ["var", "xN"]}])
+        base = [{"head": "A", "hf": {"N": ["var", "xN"], "M": ["var", "xN"]}, "body": [t], "bf": [{}]},
+                {"head": "A", "hf": free, "body": [t], "bf": [{}]},
+                {"head": "B", "hf": {"N": v1, "M": v2}, "body": [u], "bf": [{}]},
+                {"head": "S", "hf": {}, "body": ["A", "B"],
+                 "bf": [{"N": ["var", "xN"], "M": ["var", "yN"]}, {"N": ["var", "xN"], "M": ["var", "yN"]}]}]
+        rng.shuffle(base)
+        prods = base + [p for p in prods if p["head"] in vs and all(b in vs + ts for b in p["body"])][:1]
+    if rng.chance(0.1) and "A" not in feats and feats:
+        # a nullable constituent with several feature variants, used twice under one agreement variable
+        f = feats[0]
+        vs = ["S", "A", "B"]
+        v1, v2 = ATOMIC[f][0], ATOMIC[f][1]
+        t = ts[0]
+        base = [{"head": "A", "hf": {f: v1}, "body": [], "bf": []},
+                {"head": "A", "hf": {f: v2}, "body": [], "bf": []},
+                {"head": "B", "hf": {f: rng.pick([v1, v2])}, "body": [t], "bf": [{}]},
+                {"head": "S", "hf": {}, "body": ["A", "A", "B"],
+                 "bf": [{f: ["var", "xN" if f in "NM" else "x" + f]}] * 3}]
+        if rng.chance(0.5):
+            base.append({"head": "B", "hf": {f: rng.pick([v1, v2])}, "body": [ts[-1]], "bf": [{}]})
+        rng.shuffle(base)
+        prods = base + [p for p in prods if p["head"] in vs and all(b in vs + ts for b in p["body"])][:1]
+    if rng.chance(0.5) and not any(p["head"] == "A" and not p["body"] and p["hf"] for p in prods):
         # no epsilon productions in half of the cases (the Earley loop treats them specially)
         prods = [p for p in prods if p["body"]] or [{"head": "S", "hf": {}, "body": [ts[0]], "bf": [{}]}]
     return {"vars": vs, "terms": ts, "feats": feats, "asub": asub, "prods": prods, "start": "S",
